@@ -39,6 +39,7 @@ type Contract struct {
 	Line     int
 	Requires []*Clause
 	Ensures  []*Clause
+	Hints    []*Clause // proof hints: facts about locals at function exit, proved first and then available to the postconditions
 	Modifies []*ModTarget
 	Lets     []*LetDef
 	LoopInv  map[int][]*Clause
@@ -55,7 +56,7 @@ type Contract struct {
 	FrameSkip []string // component prefixes exempt from frame obligations (ghost)
 }
 
-var clauseRe = regexp.MustCompile(`^(requires|ensures|invariant|loop|modifies|let|inline|assumed|func|decreases|ghost|note|tags|safety|mode|noframe)\b(.*)$`)
+var clauseRe = regexp.MustCompile(`^(requires|ensures|hint|invariant|loop|modifies|let|inline|assumed|func|decreases|ghost|note|tags|safety|mode|noframe)\b(.*)$`)
 var tagRe = regexp.MustCompile(`^\[([^\]]*)\]\s*(.*)$`)
 
 func parseContractFile(path string) (map[string]*Contract, error) {
@@ -210,8 +211,10 @@ func parseContractFile(path string) (map[string]*Contract, error) {
 				cl.Label = fmt.Sprintf("L%d", l.no)
 			}
 			cur.LoopInv[n] = append(cur.LoopInv[n], cl)
-		case "requires", "ensures":
-			cur.HasBody = true
+		case "requires", "ensures", "hint":
+			if kw != "hint" {
+				cur.HasBody = true
+			}
 			cl := &Clause{Kind: kw, Line: l.no}
 			if tm := tagRe.FindStringSubmatch(rest); tm != nil {
 				parseTags(cl, tm[1])
@@ -228,6 +231,8 @@ func parseContractFile(path string) (map[string]*Contract, error) {
 			}
 			if kw == "requires" {
 				cur.Requires = append(cur.Requires, cl)
+			} else if kw == "hint" {
+				cur.Hints = append(cur.Hints, cl)
 			} else {
 				cur.Ensures = append(cur.Ensures, cl)
 			}
@@ -695,6 +700,9 @@ type SpecEnv struct {
 	Funcs map[string]*PreludeFn
 	Bound map[string]string // quantifier-bound var -> sort
 	CompSorts map[string]string
+	Estable   map[string]bool // entry-stable spec functions: read only cells reachable from their arguments (evaluated on the entry heap when every component agrees with it below the entry allocation mark)
+	EntrySt   State
+	ProveOK   func(Term) bool // decides a heap-agreement side condition at VC-generation time (nil: leave it to the goal)
 	Epoch     map[string]bool // epoch-stable spec functions (evaluated on the base snapshot when their arguments predate it)
 	EntryAlloc Term
 }
@@ -1140,6 +1148,62 @@ func (e *SpecEnv) call(n *node) (specVal, error) {
 	r := specVal{T: T(f.Ret, app(f.Name, args...))}
 	if useBase && balloc.S != "" {
 		r.T = Ite(And(conds...), T(f.Ret, app(f.Name, baseArgs...)), r.T)
+	}
+	if e.Estable[f.Name] && e.EntrySt != nil && e.EntryAlloc.S != "" {
+		// entry-stable: f(current heap, args) == f(entry heap, args) when the arguments predate the entry
+		// allocation mark and every component agrees with the entry heap below it
+		al := e.EntryAlloc.S
+		var eargs []string
+		var oks []Term
+		var argGuards []Term
+		differs := false
+		ki2 := 0
+		for _, p := range f.Params {
+			if comp, isHeap := e.Cur[p[0]]; isHeap {
+				ent, has := e.EntrySt[p[0]]
+				if !has || ent.S == comp.S {
+					eargs = append(eargs, comp.S)
+					continue
+				}
+				differs = true
+				eargs = append(eargs, ent.S)
+				if _, isArr := elemOfArr(comp.Sort); isArr {
+					ok := T(SBool, fmt.Sprintf("(forall ((q Int)) (! (=> (and (<= 0 q) (< q %s)) (= (select %s q) (select %s q))) :pattern ((select %s q))))", al, comp.S, ent.S, comp.S))
+					if e.ProveOK == nil || !e.ProveOK(ok) {
+						oks = append(oks, ok)
+					}
+				} else {
+					oks = append(oks, Eq(comp, ent))
+				}
+				continue
+			}
+			a := args[len(eargs)]
+			eargs = append(eargs, a)
+			var gd Term
+			switch p[1] {
+			case SSlice:
+				gd = T(SBool, app("okslice", a, al))
+			case SVal:
+				gd = T(SBool, app("okval", a, al))
+			case SInt:
+				// reference parameters are named r, c or *_ref by convention
+				if p[0] == "r" || p[0] == "c" || strings.HasSuffix(p[0], "_ref") {
+					gd = T(SBool, app("okref", a, al))
+				}
+			}
+			if gd.S != "" {
+				argGuards = append(argGuards, gd)
+			}
+			ki2++
+		}
+		if differs {
+			for _, gd := range argGuards {
+				if e.ProveOK == nil || !e.ProveOK(gd) {
+					oks = append(oks, gd)
+				}
+			}
+			r.T = Ite(And(oks...), T(f.Ret, app(f.Name, eargs...)), r.T)
+		}
 	}
 	if f.Ret == SSlice {
 		// convention: slices returned by prelude functions hold Val elements
